@@ -1066,10 +1066,14 @@ class SimSelector:
             return out
         if timeout is not None and timeout <= 0:
             out = ready()
+            if out:
+                s.ev(p.name, "sel-ready", tuple(k.fd for k, _ in out))
             s.tick()
             return out
         s.block(lambda: bool(ready()), timeout, True, False)
         out = ready()
+        if out:
+            s.ev(p.name, "sel-ready", tuple(k.fd for k, _ in out))
         s.tick()
         return out
 
